@@ -17,7 +17,7 @@ FORMS = {  # harness -> (function under contract, callees replaced by their prov
 REPL = {'AlmGeneric': HELP + WR, 'Moda': ['Interpreter_AddSub', 'Interpreter_GetAcc'] + WR, 'SatAndSetAccAndFlag': ['Interpreter_SetAccFlag', 'Interpreter_SaturateAcc', 'Interpreter_SetAcc'],
         'SetAccAndFlag': ['Interpreter_SetAccFlag', 'Interpreter_SetAcc']}
 FUC = ['Interpreter_' + h for h in H] + [v[0] for v in FORMS.values()] + ['Interpreter_GetAcc', 'Interpreter_SetAcc']
-def ob(entry, fn, repl, to=120):
+def ob(entry, fn, repl, to=900):
     return {'id': fn, 'entry': entry, 'enforce': [fn], 'replace': repl, 'unwind': 9, 'timeout': to, 'expect_classes': {'postcondition': 1}, 'min_obligations': 5,
             'checks': [], 'standard_checks': False, 'object_bits': 12}
 PLAN = {
